@@ -27,6 +27,7 @@ func ruleC05(r *Report) {
 	r.Rule("C05.nil", "no dereference of an absent optional request element in the validator", 1)
 
 	checkConfigReadOnly(r, p, "C05.table", "saml", "IdentityProvider")
+	safely(r, func() { checkRequestDecoder(r, p, "C05.accept") })
 	validate := p.MustFunc("saml", "IdpAuthnRequest", "Validate")
 	a := NewAnalysis(p)
 	// checks moved into error-returning helpers of the root package are analysed as part of the validator; the
